@@ -31,6 +31,7 @@ def common(tier):
         J('fig8full-3-b8:H1R1', 'fig8_full', dict(n=3, batch_bytes=8), dict(H=1, R=1)),
         J('ahead3:H4K1', 'ahead', dict(n=3), dict(H=4, K=1), dict(unrep=4)),
         J('aheadfull3:H1S1', 'ahead_full', dict(n=3), dict(H=1, S=1)),
+        J('stalesnap3:H2S1', 'stale_snapshot', dict(n=3), dict(H=2, S=1)),
         J('candidates4', 'candidates', dict(n=4, fuse=True), dict()),
         J('candidates5x2', 'candidates', dict(n=5, fuse=True), dict()),
         J('pipeline3:H2R1K1', 'reconnect_pipeline', dict(n=3), dict(H=2, R=1, K=1), dict(unrep=4)),
